@@ -5,6 +5,7 @@ package main
 import (
 	"fmt"
 	"go/token"
+	"sort"
 	"strings"
 
 	"golang.org/x/tools/go/ssa"
@@ -142,6 +143,7 @@ func checkC18(p *Program, r *Report) {
 				return
 			}
 		})
+		checkBracketGuards(p, r, fr)
 		r.Floor("R18.1", "return statements", n, 2)
 		r.Floor("R18.1", "bracket pairs", pairs, 2)
 	}
@@ -330,4 +332,102 @@ func everyPathEstablishesNonNeg(fn *ssa.Function, b *ssa.BasicBlock, vals ...ssa
 	}
 	reach := reachable(fn.Blocks[0], isGood)
 	return !reach[b]
+}
+
+// checkBracketGuards (R18.3): sibling agreement of the two bracket updates. A trial point replaces an end of the
+// running bracket only under comparisons of the trial with the *running* bracket ends (the variables that are
+// themselves updated by trials) — not with the bracket the iteration started from.
+func checkBracketGuards(p *Program, r *Report, fr *ssa.Function) {
+	r.Rule("R18.3", "the tightest bracket is kept: each update `end = trial` of the running bracket is guarded only by comparisons of the trial with the running bracket ends themselves (both siblings use the same pair), never with the iteration's starting bracket")
+	loops := findLoops(fr)
+	// bracket variables: phis that receive a trial value (an element of the trial list) on some edge
+	isTrial := func(v ssa.Value) bool {
+		for _, o := range origins(v) {
+			u, ok := o.(*ssa.UnOp)
+			if !ok || u.Op != token.MUL {
+				return false
+			}
+			if _, ok := u.X.(*ssa.IndexAddr); !ok {
+				return false
+			}
+		}
+		return true
+	}
+	names := map[string]bool{}
+	type upd struct {
+		phi  *ssa.Phi
+		pred *ssa.BasicBlock
+		val  ssa.Value
+	}
+	var upds []upd
+	eachInstr(fr, func(b *ssa.BasicBlock, _ int, ins ssa.Instruction) {
+		phi, ok := ins.(*ssa.Phi)
+		if !ok || phi.Comment == "" || !strings.HasSuffix(phi.Comment, "X") {
+			return
+		}
+		for i, e := range phi.Edges {
+			if _, isPhi := e.(*ssa.Phi); isPhi {
+				continue
+			}
+			if isTrial(e) {
+				names[phi.Comment] = true
+				upds = append(upds, upd{phi, b.Preds[i], e})
+			}
+		}
+	})
+	n := 0
+	for _, u := range upds {
+		l := innermostLoop(loops, u.pred)
+		if l == nil {
+			continue
+		}
+		// x = trial accepted as result is not a bracket update: only variables compared against
+		nG := 0
+		bad := ""
+		for _, g := range guardsAt(u.pred) {
+			if !l.Blocks[g.If.Block()] {
+				continue
+			}
+			bo, ok := g.Cond.(*ssa.BinOp)
+			if !ok {
+				continue
+			}
+			var other ssa.Value
+			if bo.X == u.val {
+				other = bo.Y
+			} else if bo.Y == u.val {
+				other = bo.X
+			} else {
+				continue
+			}
+			ph, ok := other.(*ssa.Phi)
+			if !ok {
+				continue
+			}
+			nG++
+			if !names[ph.Comment] {
+				bad = fmt.Sprintf("the update of %s is guarded by a comparison with %s, which is not one of the running bracket ends %v", u.phi.Comment, ph.Comment, keysOf(names))
+			}
+		}
+		if nG == 0 {
+			continue
+		}
+		n++
+		key := "util/fn.FindRoot:bracket-update:" + u.phi.Comment
+		if bad != "" {
+			r.Fail("R18.3", key, p.Pos(u.phi.Pos()), bad+": a later, looser trial can overwrite a tighter bound, so the bracket is no longer guaranteed to shrink")
+		} else {
+			r.OK("R18.3", fmt.Sprintf("util/fn.FindRoot: %s = trial only under comparisons with the running bracket ends", u.phi.Comment))
+		}
+	}
+	r.Floor("R18.3", "guarded bracket updates", n, 2)
+}
+
+func keysOf(m map[string]bool) []string {
+	var out []string
+	for k := range m {
+		out = append(out, k)
+	}
+	sort.Strings(out)
+	return out
 }
